@@ -367,6 +367,43 @@ pub fn run(outdir: &str, seed: u64, thorough: bool) -> serde_json::Value {
             }
         }
     }
+    // ---- tagged unions (DataType::Union): fields shared by both sides or private to one ----
+    {
+        use crate::typegen::*;
+        use qrlew::data_type::{value::Value, DataType, Variant as _};
+        let nu = if thorough { 6000 } else { 400 };
+        for _ in 0..nu {
+            let mut r = rng.fork();
+            let names = ["a", "b", "l", "r"];
+            let mk = |r: &mut Rng| -> Vec<(String, Ty)> { let mut fs: Vec<(String, Ty)> = vec![]; for n in names.iter() { if r.chance(1, 2) { fs.push((n.to_string(), gen_ty(r, 0))); } } if fs.is_empty() { fs.push(("a".to_string(), gen_ty(r, 0))); } fs };
+            let fa = mk(&mut r);
+            // the other side: its own fields, often sharing a name with a type of the same kind that is wider, narrower or disjoint
+            let mut fb = mk(&mut r);
+            for (n, t) in fa.iter() { if r.chance(1, 2) { fb.retain(|(m, _)| m != n); fb.push((n.clone(), match r.below(3) { 0 => widen(t, &mut r), 1 => t.clone(), _ => gen_ty(&mut r, 0) })); } }
+            let a = DataType::union(fa.iter().map(|(n, t)| (n.as_str(), to_dt(t))).collect::<Vec<_>>());
+            let b = DataType::union(fb.iter().map(|(n, t)| (n.as_str(), to_dt(t))).collect::<Vec<_>>());
+            // witnesses: (tag, value); membership in a union type is membership of the value in the type of its tag, up to the
+            // canonical injections (typegen::member), as for the other variants
+            let wa: Vec<(String, Value)> = fa.iter().map(|(n, t)| (n.clone(), sample(t, &mut r))).collect();
+            let wb: Vec<(String, Value)> = fb.iter().map(|(n, t)| (n.clone(), sample(t, &mut r))).collect();
+            let umem = |t: &DataType, w: &(String, Value)| -> bool { match t { DataType::Union(u) => u.field(&w.0).map(|(_, ft)| member(ft, &w.1)).unwrap_or(false), _ => false } };
+            let res = catch_unwind(AssertUnwindSafe(|| (a.is_subset_of(&b), a.super_union(&b).ok(), a.super_intersection(&b).ok())));
+            st.evaluations += 1; st.distinct.insert(hash_str(&format!("un{}|{}", a, b))); st.bump("dt_union_variant_pairs");
+            let Ok((sab, un, inter)) = res else { st.bump("dt_panicked"); continue };
+            let inb = |v: &(String, Value)| umem(&b, v);
+            let ina = |v: &(String, Value)| umem(&a, v);
+            for v in wa.iter() {
+                if !ina(v) { continue; }
+                if sab && !inb(v) { st.violation(json!({"kind":"dt-subset-unsound","class":"tagged-unions","a":a.to_string(),"b":b.to_string(),"value":format!("{{{}: {}}}", v.0, v.1)})); }
+                if let Some(u) = &un { if !umem(u, v) { st.violation(json!({"kind":"dt-union-lost-value","class":"tagged-unions","a":a.to_string(),"b":b.to_string(),"union":u.to_string(),"value":format!("{{{}: {}}}", v.0, v.1),"from":"a"})); } }
+                if let Some(i) = &inter { if inb(v) && !umem(i, v) { st.violation(json!({"kind":"dt-intersection-lost-value","class":"tagged-unions","a":a.to_string(),"b":b.to_string(),"intersection":i.to_string(),"value":format!("{{{}: {}}}", v.0, v.1)})); } }
+            }
+            for v in wb.iter() {
+                if !inb(v) { continue; }
+                if let Some(u) = &un { if !umem(u, v) { st.violation(json!({"kind":"dt-union-lost-value","class":"tagged-unions","a":a.to_string(),"b":b.to_string(),"union":u.to_string(),"value":format!("{{{}: {}}}", v.0, v.1),"from":"b"})); } }
+            }
+        }
+    }
     {
         use qrlew::data_type::{value::Value, DataType, Variant as _};
         use crate::typegen::member;
